@@ -13,7 +13,7 @@ fn fail(ty: &str, op: &str, form: &str, msg: String) -> Fail {
 }
 
 macro_rules! lane_type {
-    ($m:ident, $V:ident, $T:ident, $N:expr) => {
+    ($m:ident, $V:ident, $T:ident, $N:expr, $mk:expr) => {
         pub mod $m {
             use super::*;
             pub const N: usize = $N;
@@ -22,6 +22,13 @@ macro_rules! lane_type {
             pub const TY: &str = stringify!($V);
             pub const BITS: u32 = <T as Fl>::BITS;
 
+            /// builds the vector; for Vec3A the padding lane gets arbitrary content (word `h`), so that an
+            /// operation that consults it is not a drop-in for Vec3
+            #[inline]
+            pub fn mkv(a: [T; N], h: u64) -> V {
+                let f: fn([T; N], u64) -> V = $mk;
+                f(a, h)
+            }
             #[inline]
             pub fn arr(w: &[u64]) -> [T; N] {
                 let mut a = [0.0 as T; N];
@@ -53,8 +60,8 @@ macro_rules! lane_type {
             }
 
             /// unary lane ops on `a` (also driven by the bit-pattern sweeps)
-            pub fn check_unary(a: [T; N], with_exp: bool) -> Result<(), Fail> {
-                let va = V::from_array(a);
+            pub fn check_unary(a: [T; N], with_exp: bool, hidden: u64) -> Result<(), Fail> {
+                let va = mkv(a, hidden);
                 let ns = [false; N];
                 let ctx = || format!("a={:?}", a);
                 macro_rules! un {
@@ -166,12 +173,13 @@ macro_rules! lane_type {
                         t.sample(json!({"type": TY, "variant": VARIANT, "a": format!("{:?}", a), "b": format!("{:?}", b), "c": format!("{:?}", c), "s": format!("{:?}", s), "words": hexwords(w)}));
                     }
                 }
-                let (va, vb, vc) = (V::from_array(a), V::from_array(b), V::from_array(c));
+                let (ha, hb, hc) = (w[3 * N + 1], w[3 * N + 2], w[3 * N + 3]);
+                let (va, vb, vc) = (mkv(a, ha), mkv(b, hb), mkv(c, hc));
                 let ns = [false; N];
                 let ctx = || format!("a={:?} b={:?} c={:?} s={:?}", a, b, c, s);
 
-                check_unary(a, true)?;
-                check_unary(b, false)?;
+                check_unary(a, true, ha)?;
+                check_unary(b, false, hb)?;
 
                 // ---- the five arithmetic operators in every form
                 macro_rules! arith {
@@ -248,7 +256,7 @@ macro_rules! lane_type {
                         }
                         e[i] = a[i].clamp(lo[i], hi[i]);
                     }
-                    lanes_ok("clamp", "", va.clamp(V::from_array(lo), V::from_array(hi)).to_array(), e, sk, &ctx)?;
+                    lanes_ok("clamp", "", va.clamp(mkv(lo, hb), mkv(hi, hc)).to_array(), e, sk, &ctx)?;
                 }
                 {
                     let mut e = [0.0 as T; N];
@@ -299,7 +307,7 @@ macro_rules! lane_type {
                 for j in 0..k {
                     let a = arr(&w[1 + j * N..1 + (j + 1) * N]);
                     arrs.push(a);
-                    vs.push(V::from_array(a));
+                    vs.push(mkv(a, w[1 + j * N] ^ 0x7fc0_0000));
                 }
                 if k >= 2 {
                     t.nontrivial(mix(hash_str(TY), mix(hash_str(VARIANT), fnv(w))));
@@ -330,10 +338,11 @@ macro_rules! lane_type {
             }
 
             pub fn strat() -> BoxedStrategy<Vec<u64>> {
-                (lattice::lane_pairs(BITS, N), lattice::lanes(BITS, N), lattice::lat(BITS))
-                    .prop_map(|(mut ab, c, s)| {
+                (lattice::lane_pairs(BITS, N), lattice::lanes(BITS, N), lattice::lat(BITS), lattice::lanes(BITS, 3))
+                    .prop_map(|(mut ab, c, s, h)| {
                         ab.extend(c);
                         ab.push(s);
+                        ab.extend(h);
                         ab
                     })
                     .boxed()
@@ -372,18 +381,18 @@ macro_rules! lane_type {
     };
 }
 
-lane_type!(vec2, Vec2, f32, 2);
-lane_type!(vec3, Vec3, f32, 3);
-lane_type!(vec3a, Vec3A, f32, 3);
-lane_type!(vec4, Vec4, f32, 4);
-lane_type!(dvec2, DVec2, f64, 2);
-lane_type!(dvec3, DVec3, f64, 3);
-lane_type!(dvec4, DVec4, f64, 4);
+lane_type!(vec2, Vec2, f32, 2, |a, _h| Vec2::from_array(a));
+lane_type!(vec3, Vec3, f32, 3, |a, _h| Vec3::from_array(a));
+lane_type!(vec3a, Vec3A, f32, 3, |a, h| Vec3A::from_vec4(Vec4::new(a[0], a[1], a[2], f32::from_bits(h as u32))));
+lane_type!(vec4, Vec4, f32, 4, |a, _h| Vec4::from_array(a));
+lane_type!(dvec2, DVec2, f64, 2, |a, _h| DVec2::from_array(a));
+lane_type!(dvec3, DVec3, f64, 3, |a, _h| DVec3::from_array(a));
+lane_type!(dvec4, DVec4, f64, 4, |a, _h| DVec4::from_array(a));
 
 /// Sweep of f32 bit patterns through the unary lane ops (strided in quick, complete in thorough).
 macro_rules! sweep {
     ($m:ident, $out:expr, $shards:expr) => {{
-        let chk = |w: &[u64], _t: &mut Tally| -> Result<(), Fail> { $m::check_unary($m::arr(w), false) };
+        let chk = |w: &[u64], _t: &mut Tally| -> Result<(), Fail> { $m::check_unary($m::arr(w), false, w[0] ^ 0x7fc0_0000) };
         $out.push(SubCheck::new(
             format!("sweep-unary/{}/{}", $m::TY, VARIANT),
             $shards,
